@@ -32,7 +32,15 @@ func (def *mapAsContainer) keyIdent(m meta.Definition) string {
 }
 
 func (def *mapAsContainer) get(m meta.Definition) (reflect.Value, error) {
+	if !def.keyedByName() {
+		// a map kept as a list (keyed by the values of the key leaf) asked for a child by name
+		return reflect.Value{}, nil
+	}
 	return def.src.MapIndex(reflect.ValueOf(def.keyIdent(m))), nil
+}
+
+func (def *mapAsContainer) keyedByName() bool {
+	return reflect.TypeOf("").AssignableTo(def.src.Type().Key())
 }
 
 func (def *mapAsContainer) set(m meta.Definition, v reflect.Value) error {
